@@ -168,3 +168,58 @@ Definition eq_case_ok (c : list N * list N * bool * list N * list N) : bool :=
   let '(l1, l2, b, l1', l2') := c in
   let '(mb, m1, m2) := addrs_equal l1 l2 in
   Bool.eqb mb b && ids_eqb m1 l1' && ids_eqb m2 l2'.
+
+(* ---------------------------------------------------------------- *)
+(* StringsToMultiaddrs / ParsePeers (mautil.go L61-L84) over abstract strings: an input
+   string either parses to the multiaddr with a given id or does not parse (None).      *)
+
+(* StringsToMultiaddrs: the parsed addresses in order; an error (the last one) iff some
+   string did not parse; (nil, nil) for an empty input *)
+Definition strings_to_maddrs (l : list (option N)) : list N * bool :=
+  (flat_map (fun o => match o with Some i => [i] | None => [] end) l,
+   existsb (fun o => match o with None => true | Some _ => false end) l).
+
+(* ParsePeers: any unparsable string, or any address without a /p2p component, is an error;
+   otherwise one AddrInfo per peer id with its transport addresses in input order (a bare
+   /p2p/ID contributes no address).  peer.AddrInfosFromP2pAddrs returns them in map order:
+   compared sorted by peer id. *)
+Fixpoint add_peer (p : N) (t : option N) (acc : list (N * list N)) : list (N * list N) :=
+  let ts := match t with Some x => [x] | None => [] end in
+  match acc with
+  | [] => [(p, ts)]
+  | (q, l) :: r =>
+      if p =? q then (q, l ++ ts) :: r
+      else if p <? q then (p, ts) :: acc
+      else (q, l) :: add_peer p t r
+  end.
+
+Definition EParse := 30.
+Definition ENoPeer := 31.
+
+Fixpoint parse_peers_go (l : list (option (option N * option N))) (acc : list (N * list N)) : res (list (N * list N)) :=
+  match l with
+  | [] => Ok acc
+  | None :: _ => Err EParse
+  | Some (None, _) :: _ => Err ENoPeer
+  | Some (Some p, t) :: r => parse_peers_go r (add_peer p t acc)
+  end.
+
+Definition parse_peers (l : list (option (option N * option N))) : res (list (N * list N)) :=
+  if existsb (fun o => match o with None => true | Some _ => false end) l then Err EParse
+  else parse_peers_go l [].
+
+Definition strs_case_ok (c : list (option N) * list N * bool) : bool :=
+  let '(l, out, err) := c in
+  let '(mo, me) := strings_to_maddrs l in
+  ids_eqb mo out && Bool.eqb me err.
+
+Definition peers_eqb (a b : list (N * list N)) : bool :=
+  list_eqb (fun x y => (fst x =? fst y) && ids_eqb (snd x) (snd y)) a b.
+
+Definition peers_case_ok (c : list (option (option N * option N)) * option (list (N * list N))) : bool :=
+  let '(l, obs) := c in
+  match parse_peers l, obs with
+  | Ok m, Some o => peers_eqb m o
+  | Err _, None => true
+  | _, _ => false
+  end.
